@@ -14,6 +14,9 @@ pub struct Item {
     pub nt: Vec<Option<u64>>,
     /// free-form labels per vector (shown in replays / samples)
     pub labels: Vec<String>,
+    /// per vector: Some(i) = only evaluated when vector i was Ok (precondition, e.g. the
+    /// uncorrupted payload is accepted); may be shorter than the vector list
+    pub depends: Vec<Option<usize>>,
 }
 
 pub struct Failure<'a> {
@@ -104,6 +107,12 @@ pub fn run_items(report: &mut Report, tag: &str, items: &[Item], hooks: &Hooks) 
         for (vi, (exp, obs)) in item.expects.iter().zip(&res.results).enumerate() {
             if matches!(obs, VecResult::NotRun) {
                 continue;
+            }
+            if let Some(Some(d)) = item.depends.get(vi) {
+                if !matches!(res.results.get(*d), Some(VecResult::Ok(_))) {
+                    report.count_extra("skipped_precondition_not_ok", 1);
+                    continue;
+                }
             }
             report.evaluations += 1;
             if let Some(h) = item.nt.get(vi).copied().flatten() {
